@@ -173,7 +173,11 @@ def probe_ctor_sweep(case, seed):
     elif case == "GeneralVorticityConvectionStepper.injection_scale":
         D, N = 2, 8
         params = jnp.asarray([-1.0, -0.4, 0.0, 0.5, 1.0])   # both signs and exactly zero: no value-dependent shortcut may differ
-        mk = lambda p: gen.GeneralVorticityConvectionStepper(D, 2.0, N, 0.01, injection_scale=p, injection_mode=2)
+        # every OTHER constructor argument non-default: the two code paths a concrete zero / a traced value select must
+        # build the same term with the same scales
+        mk = lambda p: gen.GeneralVorticityConvectionStepper(D, 2.0, N, 0.01, injection_scale=p, injection_mode=2,
+                                                             vorticity_convection_scale=0.6, linear_coefficients=(-0.05, 0.0, 0.02),
+                                                             order=3, dealiasing_fraction=0.6)
         C = 1
     else:
         raise KeyError(case)
